@@ -920,4 +920,83 @@ example : refinesAll [("o", some (.tensor 1 (some [.const 2, .unk])))] [("o", so
 example : refinesAll [("o", some (.tensor 1 none))] [("o", some (.tensor 1 (some [.unk])))] = false := by decide
 example : refinesAll [("o", some (.tensor 7 none))] [("o", some (.tensor 1 none))] = false := by decide
 
+/-! ### How the constructors with a body type the body's formal arguments -/
+
+/-- Loop: the formals after (iteration, condition) are the operands' own types, in order -/
+theorem loop_formals_carried (vs : List Ty) : (loopFormals vs).drop 2 = vs := rfl
+
+/-- `_partial`: spox's formals agree with the specification's *after the first two* ... -/
+theorem loop_formals_partial (vs : List Ty) : (loopFormals vs).drop 2 = (loopFormalsSpec vs).drop 2 := rfl
+
+/-- ... and never on the first two: iteration number and condition are declared `(1,)`, the
+    specification (and ONNX's inference) has scalars - a scalar `cond` operand is rejected at the call,
+    a `(1,)` one accepted (known findings `raises-but-onnx-accepts:Loop`, `accepts-but-onnx-rejects:Loop`) -/
+theorem loop_formals_cond_shape_counterexample (vs : List Ty) :
+    (loopFormals vs).take 2 ≠ (loopFormalsSpec vs).take 2 := by
+  simp [loopFormals, loopFormalsSpec]
+
+/-- Scan, one scan input of known rank: the formal is the operand with its FIRST axis removed -/
+theorem scan_slice_drops_axis0 (e : Nat) (d : Dim) (ds : List Dim) :
+    scanSliceFormal (.tensor e (some (d :: ds))) = some (.tensor e (some ds)) := rfl
+
+/-- `_partial`: for a scan input scanned along axis 0 (the default) spox's formal is the slice the
+    specification gives the body ... -/
+theorem scan_formals_axis0_partial (t : Ty) : scanSliceFormal t = scanSliceSpec t 0 := by
+  cases t with
+  | tensor e sh => cases sh with
+    | none => rfl
+    | some ds => cases ds <;> rfl
+  | seq t => rfl
+  | opt t => rfl
+
+/-- ... and for another axis it is not: `scan_input_axes` is ignored when the body is typed (known
+    findings `…:Scan:…:nonzero-scan-input-axes`): f32[2,3] scanned along axis 1 - the body should see
+    f32[2], spox declares f32[3] -/
+theorem scan_formals_nonzero_axis_counterexample :
+    scanSliceFormal (.tensor 1 (some [.const 2, .const 3])) = some (.tensor 1 (some [.const 3]))
+    ∧ scanSliceSpec (.tensor 1 (some [.const 2, .const 3])) 1 = some (.tensor 1 (some [.const 2])) := by
+  decide
+
+/-- Scan with `num_scan_inputs = n ≤ len`: the state formals are the first `len - n` operands
+    unchanged -/
+theorem scan_formals_state (state scan : List Ty) (hs : ∀ t ∈ state, ∃ e sh, t = .tensor e sh)
+    (fs : List Ty) (h : scanFormals (state ++ scan) scan.length = some fs) : fs.take state.length = state := by
+  have hk : ((state ++ scan).length : Int) - (scan.length : Int) = (state.length : Int) := by
+    simp [List.length_append]
+  simp only [scanFormals, hk, pyTake, pyDrop] at h
+  have hneg : ¬ ((state.length : Int) < 0) := by omega
+  simp only [hneg, if_false, Int.toNat_natCast, List.take_left', List.drop_left'] at h
+  clear hk hneg
+  revert fs h
+  induction state with
+  | nil => intro fs h; simp
+  | cons t ts ih =>
+    intro fs h
+    obtain ⟨e, sh, rfl⟩ := hs _ (List.mem_cons_self)
+    simp only [List.map_cons, List.cons_append, stateFormal, allSome] at h
+    cases hrest : allSome (ts.map stateFormal ++ scan.map scanSliceFormal) with
+    | none => simp [hrest] at h
+    | some rest =>
+      simp only [hrest, Option.map_some, Option.some.injEq] at h
+      subst h
+      have := ih (fun t ht => hs t (List.mem_cons_of_mem _ ht)) rest hrest
+      simp [this]
+
+/-- SequenceMap: the first formal is the element type of the sequence operand -/
+theorem seqmap_formals_elem (t : Ty) (add : List Ty) (fs : List Ty)
+    (h : seqMapFormals (.seq t) add = some fs) : fs.head? = some t ∧ fs.length = add.length + 1 := by
+  simp only [seqMapFormals, Option.some.injEq] at h
+  subst h
+  simp
+
+example : scanFormals [.tensor 1 (some [.const 4]), .tensor 7 (some [.sym "T", .const 2]), .tensor 7 none] 2
+    = some [.tensor 1 (some [.const 4]), .tensor 7 (some [.const 2]), .tensor 7 none] := by decide
+/-- `num_scan_inputs` larger than the operand list: Python's negative slice bounds -/
+example : scanFormals [.tensor 1 (some [.const 4]), .tensor 7 (some [.const 3, .const 2])] 3
+    = some [.tensor 1 (some [.const 4]), .tensor 7 (some [.const 2])] := by decide
+example : scanFormals [.seq (.tensor 1 none)] 1 = none := by decide
+example : seqMapFormals (.seq (.tensor 1 (some [.const 2]))) [.seq (.tensor 7 none), .tensor 9 (some [])]
+    = some [.tensor 1 (some [.const 2]), .tensor 7 none, .tensor 9 (some [])] := by decide
+example : seqMapFormals (.tensor 1 none) [] = none := by decide
+
 end C05
